@@ -211,6 +211,8 @@ impl<'ccx, 'tcx: 'ccx> TyGenContext<'ccx, 'tcx> {
                                 e.method = method;
                                 e.method_name = info.method_name.clone();
                                 e.cpp_method_name = info.cpp_method_name.clone();
+                                // The lifetime annotations describe what the getter returns (a setter has none)
+                                e.lifetime_args = info.lifetime_args.clone();
                             }
                             Some(hir::SpecialMethod::Setter(_)) => {
                                 assert!(
